@@ -60,7 +60,7 @@ package cron
 //@   also-modifies lastPersistent
 //@   pure-effects
 //@ iface Cronner.ScheduleEvent
-//@   ghost-ensures result == nil ==> cronScheduledId == old(se.Id)
+//@   ghost-ensures result == nil ==> cronScheduledId == old(work.Id)
 //@   also-modifies cronScheduledId
 //@ iface Cronner.Rem
 //@   ghost-ensures result1 == nil ==> cronRemId == id
